@@ -95,7 +95,7 @@ WRun(vers) == \E a \in {RunWf(Dev, sysA, kinds, vers)}, f \in {RunWf({}, sysF, k
                  /\ prev' = vers /\ nruns' = nruns + 1 /\ UNCHANGED kinds
 WNext == nruns < MaxRuns /\ \E vers \in [1..NStages -> Versions] : WRun(vers)
 \* the variables of Handles are not used at this level
-WSpec == /\ WInit /\ m = M0 /\ r = R0 /\ fired = {} /\ stale = FALSE /\ nops = 0 /\ lastop = NoOp
+WSpec == /\ WInit /\ m = M0 /\ mfix = M0 /\ r = R0 /\ fired = {} /\ stale = FALSE /\ nops = 0 /\ lastop = NoOp
          /\ [][WNext /\ UNCHANGED vars]_<<wvars, vars>>
 
 (***************************************************************************)
